@@ -167,6 +167,7 @@ func c14Pairs(c *Ctx) []pairSpec {
 }
 
 func runC14(c *Ctx) {
+	borrow(c, "O17", "C07", "O2", "remaining share initialised only when absent", "the simulated allocation of a department is the running difference over ALL its victim queues of the scenario: re-reading the current allocation for every leaf forgets the earlier victims and the validator accepts scenarios that push the department below its deserved quota")
 	borrow(c, "O15", "C07", "O4", "snapshot rebuilt on every call", "the per-attempt copy of the queue attributes is what the reclaim validators read: a copy that survives from an earlier attempt no longer equals the queues' allocation after that attempt was committed")
 	borrow(c, "O16", "C01", "O7", "BindPod failure -> unallocate", "a bind that failed must be taken back in the session: otherwise node, job and queue keep charging a pod that is still pending")
 	borrow(c, "O9", "C13", "O9", "restored before", "an undo re-adds the pod to its node with the fields the task carries at that moment: the node's per-GPU and per-status counters equal the recomputation from the pods only if the task was restored first")
